@@ -45,14 +45,41 @@ def check_cols(b, backend, got_cols, ops, case, final_select):
     if set(got_cols) != set(want) or len(got_cols) != len(set(got_cols)):
         b.violation("columns-differ-from-declared",
                     f"{backend}: result columns {list(got_cols)} != declared {want}\npipeline: {diff.describe(case)}",
-                    case=diff.case_json(case, {"backend": backend}))
+                    case=diff.case_json(case, {"backend": backend, "scrambled": bool(case.get("scrambled"))}))
         return False
     if final_select is not None and list(got_cols) != list(final_select):
         b.violation("column-order-after-select_columns",
                     f"{backend}: result column order {list(got_cols)} != selected order {list(final_select)}\n"
-                    f"pipeline: {diff.describe(case)}", case=diff.case_json(case, {"backend": backend}))
+                    f"pipeline: {diff.describe(case)}", case=diff.case_json(case, {"backend": backend, "scrambled": bool(case.get("scrambled"))}))
         return False
     return True
+
+
+def build_maybe_scrambled(case, scr, b=None):
+    """build the pipeline; when scr, afterwards change every list / dict the caller handed to the builders (the
+    caller's own objects): the pipeline's declared columns and its results must not follow"""
+    if not scr:
+        return B.build(case["recipe"])
+    B.HOLD = []
+    try:
+        ops = B.build(case["recipe"])
+        held = B.HOLD
+    finally:
+        B.HOLD = None
+    declared0 = list(ops.column_names)
+    n = B.scramble(held)
+    case["scrambled"] = True
+    if b is not None:
+        b.count("caller_argument_containers_changed_after_build", n=n)
+        b.count("scrambled_cases")
+    if list(ops.column_names) != declared0:
+        if b is not None:
+            b.violation("declared-columns-follow-caller-list",
+                        f"declared columns were {declared0}; after the caller changed the lists/dicts it had passed to the "
+                        f"builders they are {list(ops.column_names)}\npipeline: {diff.describe(case)}",
+                        case=diff.case_json(case, {"scrambled": True}))
+        return None
+    return ops
 
 
 def run_batch(seed, batch, tier):
@@ -67,7 +94,10 @@ def run_batch(seed, batch, tier):
             with time_limit(30):
                 nps = (0, 0, 0.2, 0.6) if b.rng.random() < 0.8 else (1, 0.6, 0)
                 case, st = diff.new_case(b.rng, profile(tier, b.rng), tier, gl, null_ps=nps)
-                ops = B.build(case["recipe"])
+                scr = b.rng.random() < 0.35
+                ops = build_maybe_scrambled(case, scr, b)
+                if ops is None:
+                    continue
                 frames = diff.used_frames(case)
                 b.evaluation()
                 final_select = case["recipe"]["cols"] if case["recipe"]["op"] == "select_columns" else None
@@ -78,10 +108,11 @@ def run_batch(seed, batch, tier):
                     ok &= check_cols(b, "pandas", list(r.columns), ops, case, final_select)
                 except Exception as ex:
                     b.count("raised", "pandas:" + type(ex).__name__)
-                for lazy in (False, True):
+                for lazy, eager in ((False, False), (True, False), (False, True)):
                     try:
-                        r = backends.run_polars(ops, frames, lazy=lazy)
-                        ok &= check_cols(b, "polars-lazy" if lazy else "polars", list(r.columns), ops, case, final_select)
+                        r = backends.run_polars(ops, frames, lazy=lazy, eager_model=eager)
+                        ok &= check_cols(b, "polars-eager-model" if eager else ("polars-lazy" if lazy else "polars"),
+                                         list(r.columns), ops, case, final_select)
                     except Exception as ex:
                         b.count("raised", "polars:" + type(ex).__name__)
                 try:
@@ -119,7 +150,7 @@ def run_batch(seed, batch, tier):
 
 def inconclusive(counters, sigs, tier):
     rc = counters.get("results_checked", {})
-    for be in ("pandas", "polars", "polars-lazy", "sqlite", "pg-surrogate"):
+    for be in ("pandas", "polars", "polars-lazy", "polars-eager-model", "sqlite", "pg-surrogate"):
         if rc.get(be, 0) < 50:
             return f"backend {be} produced only {rc.get(be, 0)} checked results"
     if counters.get("monitor_calls", {}).get("c08_results_checked", 0) == 0:
@@ -133,7 +164,9 @@ def replay(v):
     if "recipe" not in c:
         return None
     b = Batch(PID, 0, 0, "quick")
-    ops = B.build(c["recipe"])
+    ops = build_maybe_scrambled(c, bool(c.get("scrambled")), b)
+    if ops is None:
+        return b.violations[0]["detail"]
     frames = diff.used_frames(c)
     final_select = c["recipe"]["cols"] if c["recipe"]["op"] == "select_columns" else None
     be = c.get("backend", "pandas")
@@ -141,7 +174,7 @@ def replay(v):
         if be == "pandas":
             r = backends.run_pandas(ops, frames)
         elif be.startswith("polars"):
-            r = backends.run_polars(ops, frames, lazy=be.endswith("lazy"))
+            r = backends.run_polars(ops, frames, lazy=be.endswith("lazy"), eager_model=be.endswith("eager-model"))
         elif be == "sqlite":
             r = backends.Sqlite().run(ops, frames)
         else:
